@@ -4,6 +4,7 @@ import (
 	"fmt"
 	"go/ast"
 	"go/constant"
+	"go/parser"
 	"go/token"
 	"go/types"
 	"regexp"
@@ -192,12 +193,13 @@ type qFrame struct {
 	bl  map[types.Object]int // 1 true, 2 false
 	sym map[types.Object]string
 	base map[types.Object]ival // offset of a view into the slice it views
+	leq  map[string]bool       // relational facts "A<=B" (expression texts) established by the enclosing conditions
 	ret []qitv
 	returned bool
 }
 
 func newQFrame() *qFrame {
-	return &qFrame{u: map[types.Object]qitv{}, n: map[types.Object]ival{}, bl: map[types.Object]int{}, sym: map[types.Object]string{}, base: map[types.Object]ival{}}
+	return &qFrame{u: map[types.Object]qitv{}, n: map[types.Object]ival{}, bl: map[types.Object]int{}, sym: map[types.Object]string{}, base: map[types.Object]ival{}, leq: map[string]bool{}}
 }
 
 func (f *qFrame) clone() *qFrame {
@@ -216,6 +218,9 @@ func (f *qFrame) clone() *qFrame {
 	}
 	for k, v := range f.base {
 		g.base[k] = v
+	}
+	for k := range f.leq {
+		g.leq[k] = true
 	}
 	g.ret = append(g.ret, f.ret...)
 	g.returned = f.returned
@@ -278,6 +283,11 @@ func joinFrames(a, b *qFrame) *qFrame {
 	for k, v := range b.base {
 		if _, ok := a.base[k]; !ok {
 			r.base[k] = v
+		}
+	}
+	for k := range a.leq {
+		if b.leq[k] {
+			r.leq[k] = true
 		}
 	}
 	r.ret = joinRets(a.ret, b.ret)
@@ -718,11 +728,35 @@ func (q *qInterp) eval(f *qFrame, x ast.Expr) qitv {
 				q.undecided++
 				return qTop
 			}
+			if f.leq[exprString(v.Y)+"<="+exprString(v.X)] {
+				// the enclosing condition established Y <= X
+				hi := a.hi.minus(b.lo)
+				return qitv{lo: qaff{0, 0}, hi: hi}
+			}
 			if !qleq(b.hi, a.lo) {
 				q.problem(x.Pos(), "underflow", "%s: the left operand can be as small as %s while the right operand can be as large as %s, so the unsigned subtraction can wrap around", exprString(x), a.lo, b.hi)
 				return qTop
 			}
-			return qitv{lo: a.lo.minus(b.hi), hi: a.hi.minus(b.lo)}
+			res := qitv{lo: a.lo.minus(b.hi), hi: a.hi.minus(b.lo)}
+			// (A + B) - Y with A <= Y (A < Y) established: at most B (B - 1)
+			if sum, ok := unparen(v.X).(*ast.BinaryExpr); ok && sum.Op == token.ADD {
+				ys := exprString(v.Y)
+				for _, pr := range [][2]ast.Expr{{sum.X, sum.Y}, {sum.Y, sum.X}} {
+					as := exprString(pr[0])
+					if f.leq[as+"<="+ys] {
+						if bb := q.eval(f, pr[1]); !bb.top && !bb.bot {
+							hi := bb.hi
+							if f.leq[as+"<"+ys] {
+								hi = hi.minus(qaff{0, 1})
+							}
+							if qleq(hi, res.hi) {
+								res.hi = hi
+							}
+						}
+					}
+				}
+			}
+			return res
 		case token.MUL:
 			a, b := q.eval(f, v.X), q.eval(f, v.Y)
 			if ea, ok := a.exact(); ok && ea.a == 0 && !b.top && !b.bot {
@@ -739,7 +773,13 @@ func (q *qInterp) eval(f *qFrame, x ast.Expr) qitv {
 				return q.checkOverflow(x, qitv{lo: a.lo.scale(1 << uint(k.v)), hi: a.hi.scale(1 << uint(k.v))})
 			}
 			return qTop
-		case token.SHR, token.AND, token.REM, token.QUO:
+		case token.REM:
+			if b := q.eval(f, v.Y); !b.top && !b.bot && qleq(qaff{0, 1}, b.lo) {
+				q.eval(f, v.X)
+				return qitv{lo: qaff{0, 0}, hi: b.hi.minus(qaff{0, 1})}
+			}
+			return qTop
+		case token.SHR, token.AND, token.QUO:
 			a := q.eval(f, v.X)
 			if a.top || a.bot {
 				return qTop
@@ -962,6 +1002,15 @@ func (q *qInterp) block(f *qFrame, list []ast.Stmt) *qFrame {
 
 func (q *qInterp) assign(f *qFrame, lhs ast.Expr, v qitv, iv ival, isInt bool, bv int, pos token.Pos) {
 	lhs = unparen(lhs)
+	if len(f.leq) > 0 {
+		// an assignment may change an operand of a recorded comparison
+		ls := exprString(lhs)
+		for k := range f.leq {
+			if strings.Contains(k, ls) {
+				delete(f.leq, k)
+			}
+		}
+	}
 	switch l := lhs.(type) {
 	case *ast.Ident:
 		if l.Name == "_" {
@@ -1153,6 +1202,36 @@ func (q *qInterp) refine(f *qFrame, cond ast.Expr, truth bool) {
 	be, ok := unparen(cond).(*ast.BinaryExpr)
 	if !ok {
 		return
+	}
+	if isUint64(q.info.TypeOf(be.X)) && isUint64(q.info.TypeOf(be.Y)) {
+		op := be.Op
+		if !truth {
+			switch op {
+			case token.GTR:
+				op = token.LEQ
+			case token.GEQ:
+				op = token.LSS
+			case token.LSS:
+				op = token.GEQ
+			case token.LEQ:
+				op = token.GTR
+			default:
+				op = token.ILLEGAL
+			}
+		}
+		xs, ys := exprString(be.X), exprString(be.Y)
+		switch op {
+		case token.LEQ, token.LSS:
+			f.leq[xs+"<="+ys] = true
+		case token.GEQ, token.GTR:
+			f.leq[ys+"<="+xs] = true
+		}
+		switch op {
+		case token.LSS:
+			f.leq[xs+"<"+ys] = true
+		case token.GTR:
+			f.leq[ys+"<"+xs] = true
+		}
 	}
 	id, ok := unparen(be.X).(*ast.Ident)
 	if !ok || !isUint64(q.info.TypeOf(id)) {
@@ -1569,7 +1648,9 @@ var qNonLazyExempt = map[string]string{
 	"Neg": "[1, q]",
 }
 
-func scanQRangeKernels(c *core.Ctx) []ob {
+func scanQRangeKernels(c *core.Ctx) []ob { return scanQRangeKernelsInto(c, nil) }
+
+func scanQRangeKernelsInto(c *core.Ctx, known map[*types.Func]qitv) []ob {
 	var out []ob
 	n := 0
 	for _, pk := range c.Pkgs {
@@ -1706,6 +1787,15 @@ func scanQRangeKernels(c *core.Ctx) []ob {
 						}
 					}
 				}
+				if known != nil {
+					if o, ok := info.Defs[fd.Name].(*types.Func); ok {
+						if worst.bot {
+							known[o] = qTop
+						} else {
+							known[o] = worst
+						}
+					}
+				}
 				bad := false
 				for _, p := range q.probs {
 					bad = true
@@ -1743,8 +1833,11 @@ func init() {
 	core.Register(&core.Rule{Name: "QRANGE", Props: []string{"C01", "C02"},
 		Doc: "interval abstract interpretation in units of the modulus (bounds a*q+b, compared for every q in [17, 2^61)) of the vector kernels behind the SubRing methods and of the lazy NTT/INTT of both ring types for every supported ring degree: no unsigned subtraction can wrap, no sum can reach 2^64 for a 61-bit modulus, CRed only sees values in [0, 2q-1], Montgomery products stay below q*2^64, and the stored results lie in the range the method documents (a method not named Lazy: [0, q-1]); primitives are summarised by the range their doc comment states, operands are assumed reduced unless the doc formula subtracts them from a multiple of the modulus",
 		Run: func(c *core.Ctx) []ob {
-			out := scanQRangeKernels(c)
-			out = append(out, scanQRangeNTT(c)...)
+			known := map[*types.Func]qitv{}
+			out := scanQRangeKernelsInto(c, known)
+			out = append(out, scanQRangeNTT(c, known)...)
+			out = append(out, scanQRangeForwarders(c, known)...)
+			out = append(out, scanQRangeScalars(c)...)
 			if !c.IsFixture {
 				out = append(out, core.Floor("QRANGE", nil, "kernels", c.Stats["qrange_kernels"], 34)...)
 				out = append(out, core.Floor("QRANGE", nil, "transforms", c.Stats["qrange_transforms"], 8)...)
@@ -1764,7 +1857,7 @@ var _ *packages.Package
 // ..., roots []uint64)) for N = 2^3 .. 2^20. The layer loops (geometric induction variable) and everything that depends
 // on N, on the layer or on its parity are executed concretely; the loops over the coefficients are executed once as a
 // layer. Input coefficients, twiddle factors and N^-1 are assumed in [0, q-1].
-func scanQRangeNTT(c *core.Ctx) []ob {
+func scanQRangeNTT(c *core.Ctx, known map[*types.Func]qitv) []ob {
 	var out []ob
 	n := 0
 	for _, pk := range c.Pkgs {
@@ -1825,6 +1918,7 @@ func scanQRangeNTT(c *core.Ctx) []ob {
 				outSym := slices[1].Name
 				var bad []string
 				var badPos token.Pos
+				worstAll := qBot
 				ranges := map[string][]int{}
 				var order []string
 				for logN := 3; logN <= 20; logN++ {
@@ -1894,6 +1988,7 @@ func scanQRangeNTT(c *core.Ctx) []ob {
 							badPos = fd.Pos()
 						}
 					}
+					worstAll = worstAll.join(res)
 					rs := res.String()
 					if _, seen := ranges[rs]; !seen {
 						order = append(order, rs)
@@ -1901,6 +1996,11 @@ func scanQRangeNTT(c *core.Ctx) []ob {
 					ranges[rs] = append(ranges[rs], logN)
 				}
 				n++
+				if known != nil {
+					if o, ok := info.Defs[fd.Name].(*types.Func); ok {
+						known[o] = worstAll
+					}
+				}
 				if len(bad) > 0 {
 					out = append(out, violOb("QRANGE", key, c.Rel(badPos), fmt.Sprintf("%s: %s", fkey, strings.Join(bad, "; "))))
 					continue
@@ -1923,4 +2023,362 @@ func qProblemSite(msg string) string {
 		return msg[:i]
 	}
 	return "?"
+}
+
+// ---------------------------------------------------------------------------------------------------------------------
+// Part D: functions that only forward to analysed ones inherit their range, and must document no less.
+
+// scanQRangeForwarders propagates the ranges computed for the kernels' methods and the transforms through the functions
+// of ring and ring/ringqp whose bodies consist of calls only (loops over the levels, tests of the presence of Q/P): the
+// range of what such a function leaves in an output is the range of the last call that wrote it; an interface method
+// stands for the join of its implementations. A forwarder that documents a range must document at least that, one that
+// is not named Lazy must end reduced.
+func scanQRangeForwarders(c *core.Ctx, known map[*types.Func]qitv) []ob {
+	var out []ob
+	if c.IsFixture {
+		return nil
+	}
+	type fdecl struct {
+		pk *packages.Package
+		fd *ast.FuncDecl
+		fn *types.Func
+	}
+	var all []fdecl
+	byName := map[string][]*types.Func{}
+	for _, pk := range c.Pkgs {
+		if sp := core.ShortPkg(pk.PkgPath); sp != "ring" && sp != "ring/ringqp" {
+			continue
+		}
+		for _, f := range pk.Syntax {
+			if fileIsTestSupport(c.Program, f.Pos()) {
+				continue
+			}
+			for _, d := range f.Decls {
+				if fd, ok := d.(*ast.FuncDecl); ok && fd.Body != nil {
+					if fn, ok := pk.TypesInfo.Defs[fd.Name].(*types.Func); ok {
+						all = append(all, fdecl{pk, fd, fn})
+						if fd.Recv != nil {
+							byName[fd.Name.Name] = append(byName[fd.Name.Name], fn)
+						}
+					}
+				}
+			}
+		}
+	}
+	inModule := func(fn *types.Func) bool {
+		if fn == nil || fn.Pkg() == nil {
+			return false
+		}
+		sp := core.ShortPkg(fn.Pkg().Path())
+		return sp == "ring" || sp == "ring/ringqp"
+	}
+	derived := map[*types.Func]qitv{}
+	lookup := func(fn *types.Func) (qitv, bool) {
+		fn = funcOrigin(fn)
+		if v, ok := known[fn]; ok {
+			return v, true
+		}
+		if v, ok := derived[fn]; ok {
+			return v, true
+		}
+		// interface method: join of the implementations
+		if sig, ok := fn.Type().(*types.Signature); ok && sig.Recv() != nil {
+			if _, isIface := sig.Recv().Type().Underlying().(*types.Interface); isIface {
+				r := qBot
+				for _, m := range byName[fn.Name()] {
+					v, ok := known[m]
+					if !ok {
+						v, ok = derived[m]
+					}
+					if !ok {
+						return qTop, false
+					}
+					r = r.join(v)
+				}
+				if r.bot {
+					return qTop, false
+				}
+				return r, true
+			}
+		}
+		return qTop, false
+	}
+	// one pass of the forwarding analysis over a function; ok=false when it is not (yet) a resolvable forwarder
+	analyse := func(d fdecl) (qitv, bool) {
+		info := d.pk.TypesInfo
+		okAll := true
+		sawCall := false
+		var block func(list []ast.Stmt, st map[string]qitv) map[string]qitv
+		cp := func(m map[string]qitv) map[string]qitv {
+			r := map[string]qitv{}
+			for k, v := range m {
+				r[k] = v
+			}
+			return r
+		}
+		joinM := func(a, b map[string]qitv) map[string]qitv {
+			r := cp(a)
+			for k, v := range b {
+				if w, ok := r[k]; ok {
+					r[k] = w.join(v)
+				} else {
+					r[k] = v
+				}
+			}
+			return r
+		}
+		block = func(list []ast.Stmt, st map[string]qitv) map[string]qitv {
+			for _, s := range list {
+				switch x := s.(type) {
+				case *ast.ExprStmt:
+					call, ok := unparen(x.X).(*ast.CallExpr)
+					if !ok {
+						okAll = false
+						continue
+					}
+					fn := calleeFunc(info, call)
+					if fn == nil {
+						if id, ok := unparen(call.Fun).(*ast.Ident); ok && id.Name == "panic" {
+							continue
+						}
+						okAll = false
+						continue
+					}
+					if !inModule(fn) {
+						continue // fmt, panic helpers: no effect on the polynomials
+					}
+					v, ok := lookup(fn)
+					if !ok || len(call.Args) == 0 {
+						okAll = false
+						continue
+					}
+					sawCall = true
+					// the callee's output operand: its last polynomial/vector parameter (twiddle tables excepted)
+					oi := len(call.Args) - 1
+					if fs, ok := fn.Type().(*types.Signature); ok {
+						for k := fs.Params().Len() - 1; k >= 0; k-- {
+							pv := fs.Params().At(k)
+							if strings.Contains(strings.ToLower(pv.Name()), "root") {
+								continue
+							}
+							t := pv.Type()
+							isVec := false
+							if sl, ok := t.Underlying().(*types.Slice); ok && isUint64(sl.Elem()) {
+								isVec = true
+							} else if nm := namedOf(t); nm != nil && nm.Obj().Name() == "Poly" {
+								isVec = true
+							}
+							if isVec {
+								oi = k
+								break
+							}
+						}
+					}
+					if oi >= len(call.Args) {
+						oi = len(call.Args) - 1
+					}
+					st[exprString(call.Args[oi])] = v
+				case *ast.IfStmt:
+					a := block(x.Body.List, cp(st))
+					b := cp(st)
+					if x.Else != nil {
+						switch e := x.Else.(type) {
+						case *ast.BlockStmt:
+							b = block(e.List, b)
+						case *ast.IfStmt:
+							b = block([]ast.Stmt{e}, b)
+						}
+					}
+					st = joinM(a, b)
+				case *ast.ForStmt:
+					st = joinM(st, block(x.Body.List, cp(st)))
+				case *ast.RangeStmt:
+					st = joinM(st, block(x.Body.List, cp(st)))
+				case *ast.BlockStmt:
+					st = block(x.List, st)
+				case *ast.ReturnStmt:
+					if len(x.Results) != 0 {
+						okAll = false
+					}
+				case *ast.AssignStmt:
+					// definitions of non-numeric helpers (views, sub-rings) are harmless; arithmetic is not forwarding
+					for _, r := range x.Rhs {
+						if isUint64(info.TypeOf(r)) {
+							okAll = false
+						}
+					}
+				case *ast.DeclStmt:
+				default:
+					okAll = false
+				}
+			}
+			return st
+		}
+		st := block(d.fd.Body.List, map[string]qitv{})
+		if !okAll || !sawCall {
+			return qTop, false
+		}
+		// the output of the function: its last parameter (or the receiver-less convention p1, p2 -> p2)
+		var last types.Object
+		if ps := d.fn.Type().(*types.Signature).Params(); ps.Len() > 0 {
+			last = ps.At(ps.Len() - 1)
+		}
+		r := qBot
+		for k, v := range st {
+			ex, err := parser.ParseExpr(k)
+			if err != nil {
+				continue
+			}
+			if id := rootIdent(ex); id != nil && last != nil && id.Name == last.Name() {
+				r = r.join(v)
+			}
+		}
+		return r, !r.bot
+	}
+	for iter := 0; iter < 6; iter++ {
+		changed := false
+		for _, d := range all {
+			if _, ok := known[d.fn]; ok {
+				continue
+			}
+			v, ok := analyse(d)
+			if !ok {
+				continue
+			}
+			if old, had := derived[d.fn]; !had || !old.eq(v) {
+				derived[d.fn] = v
+				changed = true
+			}
+		}
+		if !changed {
+			break
+		}
+	}
+	n := 0
+	for _, d := range all {
+		v, ok := derived[d.fn]
+		if !ok {
+			continue
+		}
+		fkey := core.FuncKey(d.pk, d.fd)
+		key := "QRANGE:" + fkey
+		doc := strings.ReplaceAll(docText(d.fd), "\n", " ")
+		bound, contract := qaff{}, ""
+		if m := qDocRange.FindStringSubmatch(doc); m != nil {
+			k, _ := strconv.ParseInt(m[1], 10, 64)
+			bound, contract = qaff{k, 0}, "documented range "+m[0]
+		} else if !strings.Contains(d.fd.Name.Name, "Lazy") && d.fd.Name.IsExported() {
+			bound, contract = qaff{1, -1}, "an operation that is not named Lazy returns fully reduced values"
+			if ex, ok := qNonLazyExempt[d.fd.Name.Name]; ok {
+				bound, contract = qaff{1, 0}, "exempted: "+ex
+			}
+		}
+		if contract == "" || v.top {
+			continue
+		}
+		n++
+		if !qleq(v.hi, bound) {
+			out = append(out, violOb("QRANGE", key, c.Rel(d.fd.Pos()), fmt.Sprintf("%s only forwards to operations that leave their output in %s, but promises at most %s (%s): a caller that relies on the stated range (lazy accumulation before one reduction) overflows", fkey, v, bound, contract)))
+		} else {
+			out = append(out, okOb("QRANGE", key, c.Rel(d.fd.Pos()), fmt.Sprintf("forwards to operations that leave their output in %s, within %s (%s)", v, bound, contract), true))
+		}
+	}
+	c.Stats["qrange_forwarders"] += n
+	return out
+}
+
+// ---------------------------------------------------------------------------------------------------------------------
+// Part C: scalars in RNS form.
+
+// scanQRangeScalars runs the functions of ring and ring/ringqp that compute on RNSScalar values (one residue per
+// modulus, each handled under its own modulus in a loop over the sub-rings). Operands are assumed reduced; no
+// subtraction may wrap, and the residues stored into an RNSScalar parameter or result are reduced unless the function is
+// named Lazy (residues that are not computed by the modelled arithmetic — big.Int conversions, exponentiations — are
+// left to RNSSTORE).
+func scanQRangeScalars(c *core.Ctx) []ob {
+	var out []ob
+	n := 0
+	isScalar := func(t types.Type) bool {
+		nm := namedOf(t)
+		return nm != nil && nm.Obj().Name() == "RNSScalar"
+	}
+	for _, pk := range c.Pkgs {
+		if sp := core.ShortPkg(pk.PkgPath); !(c.IsFixture || sp == "ring") {
+			continue
+		}
+		info := pk.TypesInfo
+		decl := map[*types.Func]*ast.FuncDecl{}
+		for _, f := range pk.Syntax {
+			for _, d := range f.Decls {
+				if fd, ok := d.(*ast.FuncDecl); ok && fd.Body != nil {
+					if o, ok := info.Defs[fd.Name].(*types.Func); ok {
+						decl[o] = fd
+					}
+				}
+			}
+		}
+		for _, f := range pk.Syntax {
+			if fileIsTestSupport(c.Program, f.Pos()) {
+				continue
+			}
+			for _, d := range f.Decls {
+				fd, ok := d.(*ast.FuncDecl)
+				if !ok || fd.Body == nil {
+					continue
+				}
+				var scalars []*ast.Ident
+				for _, fl := range fd.Type.Params.List {
+					for _, nm := range fl.Names {
+						if isScalar(info.TypeOf(nm)) {
+							scalars = append(scalars, nm)
+						}
+					}
+				}
+				if len(scalars) == 0 {
+					continue
+				}
+				fkey := core.FuncKey(pk, fd)
+				key := "QRANGE:" + fkey + "#scalars"
+				q := &qInterp{c: c, info: info, decls: decl, cells: map[string]qitv{}}
+				fr := newQFrame()
+				for _, s := range scalars {
+					fr.sym[info.Defs[s]] = s.Name
+					q.cells[s.Name] = qbelow(1)
+				}
+				for _, fl := range fd.Type.Params.List {
+					for _, nm := range fl.Names {
+						if isUint64(info.TypeOf(nm)) {
+							fr.u[info.Defs[nm]] = qTop
+						}
+					}
+				}
+				q.block(fr, fd.Body.List)
+				n++
+				bad := false
+				for _, p := range q.probs {
+					bad = true
+					out = append(out, violOb("QRANGE", key+"#"+p.kind+":"+qProblemSite(p.msg), c.Rel(p.pos), fmt.Sprintf("%s (in %s, RNS scalar operands assumed reduced)", p.msg, fkey)))
+				}
+				if !strings.Contains(fd.Name.Name, "Lazy") {
+					bound := qaff{1, -1}
+					if strings.HasPrefix(fd.Name.Name, "Neg") {
+						bound = qaff{1, 0} // q - 0 = q, as SubRing.Neg
+					}
+					for _, s := range q.stores {
+						if s.v.top || s.v.bot || qleq(s.v.hi, bound) {
+							continue
+						}
+						bad = true
+						out = append(out, violOb("QRANGE", key+"#range:"+s.sym, c.Rel(s.pos), fmt.Sprintf("%s stores residues in %s into the RNS scalar %s: the functions that consume RNS scalars (SubRNSScalar's `s1 + q - s2`, NegRNSScalar's `q - s1`) take residues in [0, q-1] and wrap around for larger ones, and the function is not named Lazy", fkey, s.v, s.sym)))
+						break
+					}
+				}
+				if !bad {
+					out = append(out, okOb("QRANGE", key, c.Rel(fd.Pos()), "no subtraction of residues can wrap; the residues computed by ring arithmetic and stored into RNS scalars are reduced", true))
+				}
+			}
+		}
+	}
+	c.Stats["qrange_scalars"] += n
+	return out
 }
